@@ -507,8 +507,8 @@ func (e *Engine) excFor(ref *Term, t types.Type) frameExc {
 
 var histN int
 
-// setOnceSlots: pointer fields that, once set, are never cleared (history constraint "once non-nil,
-// stays non-nil"). Checked at every store of the repository to such a field (HIST obligation) and
+// setOnceSlots: pointer fields that, once set, are never written again (history constraint "once
+// non-nil, keeps its value": a reference is resolved at most once). Checked at every store of the repository to such a field (HIST obligation) and
 // assumed across every havoc of the field's family (loop cut, call summary).
 var setOnceSlots = map[string]bool{
 	"model.ObjectFieldAttribute.RefPacket": true,
@@ -531,7 +531,7 @@ func (s *State) havocFamily(fam string, ver int) {
 				bv := Sym(fmt.Sprintf("bv.hist#%d", histN), SInt)
 				before := s.selectIn(old, slot, SInt, []*Term{bv})
 				after := s.sel(slot, SInt, []*Term{bv})
-				s.assume(Forall(bv, Implies(Ne(before, Zero), Ne(after, Zero))))
+				s.assume(Forall(bv, Implies(Ne(before, Zero), Eq(after, before))))
 			}
 		}()
 	}
@@ -894,7 +894,7 @@ func sortedKeys[V any](m map[string]V) []string {
 }
 
 // histStore: a store of the repository to a set-once field keeps the history constraint: the old
-// value is nil or the new value is non-nil.
+// value is nil or the new value is the old value.
 func (e *Engine) histStore(s *State, in ssa.Instruction, pl Place, t types.Type, v Value) {
 	for i, sl := range e.layout(t) {
 		slot := pl.Prefix + sl.Suffix
@@ -906,6 +906,6 @@ func (e *Engine) histStore(s *State, in ssa.Instruction, pl Place, t types.Type,
 		if ch := s.top().chain; ch != "" {
 			name = ch + "/" + name
 		}
-		e.oblige(s, "INV", name, slot+" is never cleared once set", in.Pos(), Or(Eq(oldv, Zero), Ne(v[i], Zero)))
+		e.oblige(s, "INV", name, slot+" is never cleared or re-pointed once set", in.Pos(), Or(Eq(oldv, Zero), Eq(v[i], oldv)))
 	}
 }
